@@ -72,6 +72,13 @@ def c10_g2(F, R):
                 R.ok(key, detail=f"E ({v}): {why}", where=sp)
             else:
                 R.bad(f"{key}|{v}", f"{v}: {detail}", sp)
+    for p, name, n in derived_hash_fields(F, reach):
+        key = f"{p.split('::{closure')[0]}|derive(Serialize) field {name}|UNSAFE"
+        why = exempt("G2.hash-order-flow", key)
+        if why:
+            R.ok(key, detail="E: " + why)
+        else:
+            R.bad(key, f"derive(Serialize) writes the hash container field `{name}` directly (no serialize_with that sorts): the dump order is the hash order", n.get("sp"))
     R.note(f"{len(src)} sources; functions that re-export hash order: {sorted(short(w) for w in wrappers)}; iterator types: {sorted(short(t) for t in iter_types)}")
 
 
